@@ -519,6 +519,24 @@ def run_pytest_workload(mod, tier, seed, files, tmpd, timeout):
         return json.load(f), ""
 
 
+_PIPE_BROKEN = [False]
+
+
+def _out(line):
+    """print that survives `./check ... | head` (the exit status must not depend on the reader)."""
+    if _PIPE_BROKEN[0]:
+        return
+    try:
+        print(line)
+        sys.stdout.flush()
+    except BrokenPipeError:
+        _PIPE_BROKEN[0] = True
+        try:
+            sys.stdout = open(os.devnull, "w")
+        except Exception:
+            pass
+
+
 def acquire_run_slot(nslots=3):
     """At most `nslots` check runs at a time on this machine (several agents share it);
     waiting happens before the watchdog clock starts.  VMON_NO_SLOTS=1 disables."""
@@ -603,34 +621,34 @@ def run_check(pid, tier, seed, ncases=None, nshards=None):
     write_evidence(mod, tier, seed, agg, wall, inconclusive)
     # ---- report
     v = agg["verdicts"]
-    print("%s tier=%s seed=%s cases=%d held=%d ambiguous=%d ood=%d known=%d violated=%d distinct_nontrivial=%d wall=%.1fs" % (
+    _out("%s tier=%s seed=%s cases=%d held=%d ambiguous=%d ood=%d known=%d violated=%d distinct_nontrivial=%d wall=%.1fs" % (
         pid, tier, seed, sum(v.values()), v.get("held", 0), v.get("ambiguous", 0),
         v.get("ood", 0), v.get("known", 0), v.get("violated", 0), len(agg["hashes"]), wall))
-    print("  monitored entry points: " + ", ".join("%s=%d" % kv for kv in sorted(agg["events"].items()) if not kv[0].startswith("assert:")))
-    print("  assertions evaluated: %d over %d monitors" % (
+    _out("  monitored entry points: " + ", ".join("%s=%d" % kv for kv in sorted(agg["events"].items()) if not kv[0].startswith("assert:")))
+    _out("  assertions evaluated: %d over %d monitors" % (
         sum(n for k, n in agg["events"].items() if k.startswith("assert:")),
         sum(1 for k in agg["events"] if k.startswith("assert:"))))
-    print("  input classes: " + ", ".join("%s=%d" % kv for kv in sorted(agg["classes"].items())))
+    _out("  input classes: " + ", ".join("%s=%d" % kv for kv in sorted(agg["classes"].items())))
     if agg["sets"]:
-        print("  distinct observed: " + ", ".join("%s=%d" % (k, len(s)) for k, s in sorted(agg["sets"].items())))
+        _out("  distinct observed: " + ", ".join("%s=%d" % (k, len(s)) for k, s in sorted(agg["sets"].items())))
     for n in agg["notes"][:10]:
-        print("  note: " + n)
+        _out("  note: " + n)
     known_entries = {e["id"]: e for e in load_known(pid)}
     for kid, n in sorted(agg["known"].items()):
         e = known_entries.get(kid, {})
-        print("KNOWN-FINDING: property=%s %s [%s, matched %d cases]" % (pid, e.get("what", kid), kid, n))
+        _out("KNOWN-FINDING: property=%s %s [%s, matched %d cases]" % (pid, e.get("what", kid), kid, n))
     if agg["violations"]:
         for n, vrec in enumerate(agg["violations"]):
             path = write_replay(vrec)
             if n < 12:
-                print("VIOLATION property=%s replay=%s monitor=%s" % (pid, os.path.relpath(path, HERE), vrec["monitor"]))
+                _out("VIOLATION property=%s replay=%s monitor=%s" % (pid, os.path.relpath(path, HERE), vrec["monitor"]))
         return 1
     if v.get("violated", 0):
-        print("VIOLATION property=%s replay=none" % pid)
+        _out("VIOLATION property=%s replay=none" % pid)
         return 1
     if inconclusive:
         for m in inconclusive:
-            print("INCONCLUSIVE property=%s reason=%s" % (pid, m))
+            _out("INCONCLUSIVE property=%s reason=%s" % (pid, m))
         return 2
     return 0
 
